@@ -104,6 +104,69 @@ fn term_long(tape: &[u32], st: &mut Stats) -> CaseResult {
     run_case(tape, st, &long_cfg())
 }
 
+/// the same semantics over the real default float table: all 34 operators, values compared with an
+/// independent evaluation of the tree (std primitives) at points inside the domain
+fn float_values(tape: &[u32], st: &mut Stats) -> CaseResult {
+    use crate::calc::*;
+    let mut t = Tape::new(tape);
+    let cfg = CalcCfg { max_size: 10, nvars: 1 + t.choose(4), rational_only: false, nondiff_pct: 20, unary_pct: 30 };
+    let size = 1 + t.choose(cfg.max_size);
+    let tree = gen_ct(&mut t, &cfg, size);
+    let text = render_ct(&tree, &mut t);
+    let mut used = vec![];
+    ct_vars(&tree, &mut used);
+    used.sort_by_key(|i| VAR_NAMES[*i]);
+    let names: Vec<String> = used.iter().map(|i| VAR_NAMES[*i].to_string()).collect();
+    let mut points: Vec<(Vec<f64>, f64)> = vec![];
+    for _ in 0..12 {
+        let full: Vec<f64> = (0..VAR_NAMES.len()).map(|_| [0.3 + t.unit_f64() * 2.0, -2.0 + t.unit_f64() * 4.0][t.choose(2)]).collect();
+        let mut ok = true;
+        let v: f64 = eval_ct(&tree, &full, &mut ok);
+        if ok {
+            points.push((used.iter().map(|i| full[*i]).collect(), v));
+        }
+        if points.len() >= 4 {
+            break;
+        }
+    }
+    st.class_if(points.is_empty(), "vacuous: no point inside the domain");
+    st.class_if(ct_has_any_nondiff(&tree), "uses abs/signum/floor/ceil/round/trunc/fract/cbrt/atan2/min/max");
+    if ct_size(&tree) >= 4 && !points.is_empty() && st.nontrivial(&text) && st.want_sample() {
+        st.sample(json!({"text": text, "point": points[0].0, "expected": points[0].1}));
+    }
+    let describe = || json!({"text": text, "vars": names});
+    let routes: Vec<(&str, Box<dyn Fn(&[f64]) -> Result<(Vec<String>, f64), String> + '_>)> = vec![
+        ("FlatEx<f64>::parse", Box::new(|p: &[f64]| { let e = ex_msg(exmex::FlatEx::<f64>::parse(&text))?; Ok((e.var_names().to_vec(), ex_msg(e.eval(p))?)) })),
+        ("FlatEx<f64>::parse_wo_compile", Box::new(|p: &[f64]| { let e = ex_msg(exmex::FlatEx::<f64>::parse_wo_compile(&text))?; Ok((e.var_names().to_vec(), ex_msg(e.eval(p))?)) })),
+        ("DeepEx<f64>::parse", Box::new(|p: &[f64]| { let e = ex_msg(exmex::DeepEx::<f64>::parse(&text))?; Ok((e.var_names().to_vec(), ex_msg(e.eval(p))?)) })),
+        ("parse<f32>", Box::new(|p: &[f64]| { let e = ex_msg(exmex::parse::<f32>(&text))?; let q: Vec<f32> = p.iter().map(|x| *x as f32).collect(); Ok((e.var_names().to_vec(), ex_msg(e.eval(&q))? as f64)) })),
+    ];
+    let pts: Vec<(Vec<f64>, f64)> = if points.is_empty() { vec![(vec![1.0; names.len()], f64::NAN)] } else { points.clone() };
+    for (what, f) in routes.iter() {
+        for (p, want) in &pts {
+            match guard(|| f(p)) {
+                Err(pn) => return Err(fail(&format!("C01/float/{what}/panic"), format!("`{text}` panics: {pn}"), describe())),
+                Ok(Err(e)) => return Err(fail(&format!("C01/float/{what}/rejected"), format!("well-formed `{text}` fails: {e}"), describe())),
+                Ok(Ok((n, v))) => {
+                    if n != names {
+                        return Err(fail(&format!("C01/float/{what}/var-names"), format!("`{text}`: variables {n:?}, expected {names:?}"), describe()));
+                    }
+                    // f32: only acceptance and variables are judged (rounding of the inputs is amplified
+                    // arbitrarily by exp/tan/powers, so no tolerance is sound)
+                    if *what != "parse<f32>" && !points.is_empty() && !close(v, *want, 1e-9) {
+                        return Err(fail(
+                            &format!("C01/float/{what}/wrong-value"),
+                            format!("`{text}` at {p:?} = {v}, documented semantics give {want}"),
+                            describe(),
+                        ));
+                    }
+                }
+            }
+        }
+    }
+    Ok(())
+}
+
 pub fn def() -> PropDef {
     PropDef {
         id: "C01",
@@ -123,6 +186,11 @@ pub fn def() -> PropDef {
                 name: "term_long",
                 rule: "as term_small with 1-200 operands (left-deep, right-deep and random shapes), up to 20 variables; non-trivial additionally if >64 operands",
                 kind: Kind::Tape { len: 4000, quick: 3_000, thorough: 150_000, f: term_long },
+            },
+            SubCheck {
+                name: "float_values",
+                rule: "tape -> tree(1-10 nodes over all 34 default float operators, 1-4 variables) x rendering (call form for atan2/min/max, juxtaposition, braces); FlatEx<f64> folded/unfolded, DeepEx<f64>, parse<f32> evaluated at up to 4 points inside the domain and compared with an independent evaluation of the tree (1e-9 relative; f32: acceptance and variables only); non-trivial = >=4 nodes with an interior point; distinct by text",
+                kind: Kind::Tape { len: 250, quick: 5_000, thorough: 400_000, f: float_values },
             },
         ],
     }
